@@ -345,7 +345,9 @@ func zipkinFamilies() [][]zcase {
 	mk("other", func(s *tracetest.SpanStub) { s.Resource = nil })
 	mk("other", func(s *tracetest.SpanStub) { s.Resource = resource.Empty() })
 	mk("other", func(s *tracetest.SpanStub) { s.InstrumentationScope = instrumentation.Scope{Name: "lib", Version: "1"} })
-	mk("other", func(s *tracetest.SpanStub) { s.Attributes = []attribute.KeyValue{attribute.String("error", "x"), attribute.Int64Slice("is", []int64{1, 2})} })
+	mk("other", func(s *tracetest.SpanStub) {
+		s.Attributes = []attribute.KeyValue{attribute.String("error", "x"), attribute.Int64Slice("is", []int64{1, 2})}
+	})
 	flush()
 	return fams
 }
